@@ -65,7 +65,7 @@ def is_record_type(q, ctx=None):
         return False
     if q.endswith("]"):
         return True
-    return q[:4] in ("std:", "cxx", "CVar", "CSel") or (ctx is not None and q in ctx.record_types)
+    return q.startswith(("std::", "cxx", "CVar", "CSelectedOutput", "class ", "struct ")) or (ctx is not None and q in ctx.record_types)
 
 
 class Event(object):
@@ -134,6 +134,7 @@ class Ctx(object):
         self.string_literals_as_ptr = True
         self.global_sorts = {}
         self.log_stores = False   # append Event("store", ...) for every write to heap memory
+        self.functional = set()   # callees whose result is a deterministic function of receiver and arguments (and that write nothing)
         self.merge_ifs = False    # join the two branches of an if into one state (values become ite terms)
 
 
@@ -364,8 +365,24 @@ class Exec(object):
     def ev_CXXThisExpr(self, n, st):
         return [(st, self.ctx.this)]
 
+    SIZEOF = {"char": 1, "signed char": 1, "unsigned char": 1, "bool": 1, "short": 2, "int": 4, "unsigned int": 4, "float": 4,
+              "long": 8, "unsigned long": 8, "double": 8, "long long": 8, "size_t": 8}       # LP64 (x86-64 Linux), as in the build
+
     def ev_UnaryExprOrTypeTraitExpr(self, n, st):
-        return [(st, tm.app("sizeof", (tm.strc(n.get("argType", {}).get("qualType", self.qt(n))),), "I"))]
+        q = n.get("argType", {}).get("desugaredQualType") or n.get("argType", {}).get("qualType")
+        if q is None and n.get("inner"):
+            q = self.qt(n["inner"][0])
+        if n.get("name") == "sizeof" and q:
+            qq = strip_type(q)
+            if qq in self.SIZEOF:
+                return [(st, tm.num(self.SIZEOF[qq], "I"))]
+            if qq.endswith("*"):
+                return [(st, tm.num(8, "I"))]
+            import re as _re
+            m = _re.match(r"^(.*?)\s*\[(\d+)\]$", qq)
+            if m and strip_type(m.group(1)) in self.SIZEOF:
+                return [(st, tm.num(self.SIZEOF[strip_type(m.group(1))] * int(m.group(2)), "I"))]
+        return [(st, tm.app("sizeof", (tm.strc(str(q)),), "I"))]
 
     def ev_CXXConstructExpr(self, n, st):
         inner = n.get("inner", [])
@@ -378,7 +395,12 @@ class Exec(object):
             return [(st, fresh("ctor_" + q.replace(" ", "_"), "P"))]
         if self.ctx.handlers.get("ctor:" + q):
             return self.ctx.handlers["ctor:" + q](self, st, n)
-        raise Undecided("constructor call %s with %d args" % (q, len(inner)))
+        out = []
+        for s2, args in self.ev_args(inner, st):
+            obj = fresh("ctor_" + q.replace(" ", "_").replace("<", "_").replace(">", "_"), "P")
+            s2.events.append(Event("ctor " + q, obj, args, tm.num(0, "I"), n))
+            out.append((s2, obj))
+        return out
 
     ev_CXXTemporaryObjectExpr = ev_CXXConstructExpr
 
@@ -780,6 +802,11 @@ class Exec(object):
                 r = h(self, st, n, name, recv, args)
                 if r is not None:
                     return r
+        if short in self.ctx.functional or name in self.ctx.functional:
+            rs = "P" if (n.get("valueCategory") == "lvalue" or is_record_type(self.qt(n), self.ctx)) else sort_of(self.qt(n))
+            res = tm.app("call:" + short, tuple([recv if recv is not None else tm.NULL] + list(args)), rs)
+            st.events.append(Event(name, recv, args, res, n))
+            return [(st, res)]
         rs = sort_of(self.qt(n))
         if recv is None and short in MATH_PURE:
             return [(st, self.math(short, args))]
@@ -958,6 +985,11 @@ class Exec(object):
         init = d["inner"][0] if d.get("init") and d.get("inner") else None
         if d.get("storageClass") == "static":
             raise Undecided("function-local static variable '%s'" % name)
+        ik = init
+        while ik is not None and ik.get("kind") in ("ExprWithCleanups", "CXXBindTemporaryExpr", "MaterializeTemporaryExpr") and ik.get("inner"):
+            ik = ik["inner"][0]
+        if ik is not None and ik.get("kind") in ("CXXConstructExpr", "CXXTemporaryObjectExpr") and not q.strip().endswith(("&", "*")):
+            self.ctx.record_types.add(strip_type(q))      # only class types are constructed
         if q.strip().endswith("&"):
             out = []
             for s, l in self.lv(init, st):
